@@ -308,8 +308,10 @@ def run_impl(doc) -> dict:
                 pass
         squares = {m.name: [[r.center.x, r.center.y, r.shape.w, r.shape.h, r.region, r.fixed, r.hard] for r in m.rectangles]
                    for m in netlist.modules}
+        fixed_centres = {m.name: (None if m.center is None else [m.center.x, m.center.y])
+                         for m in netlist.modules if m.is_fixed}
         res.update(status="ok", cells=cells, bbox=[bbx.center.x, bbx.center.y, bbx.shape.w, bbx.shape.h], stats=stats,
-                   rects_after=squares)
+                   rects_after=squares, fixed_centres=fixed_centres)
     except Exception as ex:
         res.update(status="err:" + type(ex).__name__, exc=type(ex).__name__, msg="while reading the result: " + str(ex)[:120])
     Rectangle.undefine_epsilon()
@@ -540,6 +542,20 @@ def spec(ctx: Ctx, doc, impl) -> list:
     if sorted(got_fixed) != want_fixed:
         fail("fixed_full:cells-are-the-fixed-rectangles", {"got": [[n, [float(x) for x in r]] for n, r in sorted(got_fixed)],
                                                           "want": [[n, [float(x) for x in r]] for n, r in want_fixed]})
+    # glb_start (hypothesis `hfc` of FV.C10.glbfloor_correct, `GlbModsOf`): in the state glbfloor starts from, the centre
+    # of every fixed module is the area-weighted mean of its rectangle centres and lies inside the die
+    for n in fixed_mods:
+        ctr = impl.get("fixed_centres", {}).get(n)
+        if ctr is None:
+            fail("glb_start:fixed-centre-defined", {"module": n})
+            continue
+        tot = sum(area(r) for r in shapes[n])
+        want = (sum(r[0] * area(r) for r in shapes[n]) / tot, sum(r[1] * area(r) for r in shapes[n]) / tot)
+        t = (Fr(1, 2 ** 44) if mode == "Q" else Fr(1, 10 ** 9)) * scale
+        if abs(Fr(ctr[0]) - want[0]) > t or abs(Fr(ctr[1]) - want[1]) > t:
+            fail("glb_start:fixed-centre-is-centroid", {"module": n, "centre": ctr, "centroid": [float(want[0]), float(want[1])]})
+        if not (-t <= Fr(ctr[0]) <= die[2] + t and -t <= Fr(ctr[1]) <= die[3] + t):
+            fail("glb_start:fixed-centre-in-die", {"module": n, "centre": ctr, "W": doc["W"], "H": doc["H"]})
     # ratio_eq / listed_iff on the non-fixed cells
     for c in nonfixed:
         r = [Fr(v) for v in c["r"]]
